@@ -46,6 +46,7 @@ def _setup():
         cmds[kind] = type("Cmd_" + kind, (amp.Command,), {
             "commandName": kind.encode(), "arguments": [(b"n", amp.Integer())], "response": [(b"n", amp.Integer())],
             "errors": {DeclaredError: b"DECLARED"}, "fatalErrors": {FatalError: b"FATAL"}})
+    cmds["switch"] = type("Cmd_switch", (amp.ProtocolSwitchCommand,), {"commandName": b"switch"})
     return amp, cmds, DeclaredError, UndeclaredError, SubDeclaredError, FatalError
 
 
@@ -63,8 +64,77 @@ def _quiet():
         _QUIET.append(1)
 
 
-def impl(case) -> str:
+def impl_wrap(case) -> str:
+    """one call stays unanswered while the same peer makes n-1 further calls (each answered at once), then a second
+    slow call; then both slow responders answer and the connection is lost.  Oracle only (tags in the model are unbounded)."""
     from twisted.internet import defer
+    from twisted.internet.error import ConnectionDone
+    from twisted.internet.testing import StringTransport
+    from twisted.python.failure import Failure as TFailure
+
+    amp, cmds, *_ = _setup()
+    _quiet()
+    results: dict = {}
+    slow: list = []
+    errors: list = []
+
+    class Peer(amp.AMP):
+        @cmds["now"].responder
+        def r_now(self, n):
+            return {"n": n}
+
+        @cmds["later"].responder
+        def r_later(self, n):
+            d = defer.Deferred()
+            slow.append((n, d))
+            return d
+
+    a, b = Peer(), Peer()
+    ta, tb = StringTransport(), StringTransport()
+    a.makeConnection(ta)
+    b.makeConnection(tb)
+
+    def shuttle():
+        while ta.value() or tb.value():
+            da, db = ta.value(), tb.value()
+            ta.clear()
+            tb.clear()
+            try:
+                if da:
+                    b.dataReceived(da)
+                if db:
+                    a.dataReceived(db)
+            except KeyError as e:          # an answer whose tag is not (any longer) outstanding
+                errors.append("KeyError:" + repr(e.args[0]))
+
+    def call(kind, i):
+        d = a.callRemote(cmds[kind], n=i)
+        d.addCallbacks(lambda r, i=i: results.setdefault(i, []).append("ok:%d" % r["n"]),
+                       lambda f, i=i: results.setdefault(i, []).append("err:" + f.type.__name__))
+
+    n, slow_ids = case["n"], case["slow"]
+    for i in range(n):
+        call("later" if i in slow_ids else "now", i)
+        shuttle()
+    for i, d in list(slow):
+        d.callback({"n": i})
+        shuttle()
+    for p in (a, b):
+        p.connectionLost(TFailure(ConnectionDone()))
+    bad = []
+    for i in range(n):
+        got = results.get(i, [])
+        if got != ["ok:%d" % i]:
+            bad.append(f"C{i}={'+'.join(got) or 'never'}")
+    bad += ["!" + e for e in errors[:3]]
+    return f"calls={n} wrong=[" + ",".join(bad[:8]) + "]"
+
+
+def impl(case) -> str:
+    if case.get("kind") == "wrap":
+        return impl_wrap(case)
+    from twisted.internet import defer
+    from twisted.internet import protocol as tprotocol
     from twisted.internet.error import ConnectionDone
     from twisted.internet.testing import StringTransport
     from twisted.python.failure import Failure as TFailure
@@ -111,6 +181,11 @@ def impl(case) -> str:
             def r_undeclared(self, n):
                 ev.append(f"I{me}:{n}")
                 raise UndeclaredError("undeclared")
+
+            @cmds["switch"].responder
+            def r_switch(self):
+                ev.append(f"I{me}:sw")
+                return tprotocol.Protocol()      # the connection is handed to this protocol once the answer is sent
 
         return Peer()
 
@@ -185,7 +260,14 @@ def impl(case) -> str:
             def issue(peer, kind, follow):
                 nonlocal ncalls
                 i, ncalls = ncalls, ncalls + 1
-                d = peers[peer].callRemote(cmds[kind], n=i)
+                try:
+                    if kind == "switch":
+                        d = peers[peer].callRemote(cmds[kind], tprotocol.ClientFactory.forProtocol(tprotocol.Protocol))
+                    else:
+                        d = peers[peer].callRemote(cmds[kind], n=i)
+                except amp.ProtocolSwitched:
+                    ev.append(f"C{i}=raise:ProtocolSwitched")       # no Deferred at all: the connection was handed over
+                    return
 
                 def again():
                     if follow:
@@ -193,7 +275,7 @@ def impl(case) -> str:
                         issue(peer, "now", False)
 
                 def ok(r, i=i):
-                    ev.append(f"C{i}=ok:{r['n']}")
+                    ev.append(f"C{i}=ok:{r['n'] if kind != 'switch' else i}")
                     again()
 
                 def err(f, i=i):
@@ -256,11 +338,17 @@ def impl(case) -> str:
 # --------------------------------------------------------------------------------------
 # oracle (independent bookkeeping on the observation)
 
-EXPECT = {"now": None, "declared": "DeclaredError", "sub": "DeclaredError", "fatal": "FatalError",
+EXPECT = {"now": None, "switch": None, "declared": "DeclaredError", "sub": "DeclaredError", "fatal": "FatalError",
           "undeclared": "UnknownRemoteError", "unknown": "UnhandledCommand", "ok": None}
 
 
 def oracle(case, obs):
+    if case.get("kind") == "wrap":
+        if not obs.endswith("wrong=[]"):
+            return Failure(case, f"one peer makes {case['n']} calls, call(s) {case['slow']} answered only at the end: {obs} -- every "
+                                 f"call must fire exactly once with its own answer however many calls were made meanwhile",
+                           "long-history-wrong-answer")
+        return None
     ops = case["ops"]
     groups = [g.split(",") if g != "." else [] for g in obs.split(" |")[0].split(" ")] if ops else []
     if len(groups) != len(ops):
@@ -269,6 +357,7 @@ def oracle(case, obs):
     later = {}          # call id -> outcome chosen when its responder fired
     n = 0
     up = True
+    handed = [False, False]      # the peer has asked for / agreed to a protocol switch: it can send no more boxes
 
     def new_call(peer, kind, follow):
         nonlocal n
@@ -280,12 +369,29 @@ def oracle(case, obs):
         where = f"op {t} {op} -> {','.join(g) or '.'}: "
         if op[0] == "call":
             new_call(op[1], op[2], bool(op[3]) if len(op) > 3 else False)
+            if op[2] == "switch":
+                handed[op[1]] = True
         expect_nested = None      # (parent id) whose callback must issue a call next
         for e in g:
             if expect_nested is not None and e[0] != "N":
                 return Failure(case, where + f"the callback of call {expect_nested} did not issue its follow-up call", "log")
             if e.startswith("!"):
                 return Failure(case, where + "an error nobody handled: " + e, "unhandled-error")
+            if e.endswith("=raise:ProtocolSwitched"):
+                i = int(e[1:].split("=")[0])
+                c = calls.get(i)
+                if c is None or c["fired"]:
+                    return Failure(case, where + "unexpected call id", "log")
+                c["fired"] = True
+                if not up:
+                    return Failure(case, where + f"call {i} made after the connection was lost raised ProtocolSwitched instead "
+                                           f"of failing with the loss reason", "after-loss-result")
+                if not handed[c["peer"]]:
+                    return Failure(case, where + f"call {i} raised ProtocolSwitched on a peer that never switched", "spurious-switch")
+                continue
+            if e[0] == "I" and e.endswith(":sw"):
+                handed[int(e[1])] = True
+                continue
             if e[0] == "N":
                 if expect_nested is None or int(e[1:]) != n:
                     return Failure(case, where + "unexpected nested call", "log")
@@ -325,7 +431,7 @@ def oracle(case, obs):
                 if res != want:
                     tag = "wrong-answer" if res.startswith("ok:") and EXPECT[kind] is None else "wrong-result"
                     return Failure(case, where + f"call {i} ({c['kind']}) got {res}, its own command's result is {want}", tag)
-                if not c["invoked"] and c["kind"] != "unknown":
+                if not c["invoked"] and c["kind"] not in ("unknown", "switch"):
                     return Failure(case, where + f"call {i} answered without its responder having run", "answer-without-question")
             elif e in ("X", "Q"):
                 up = False
@@ -381,6 +487,29 @@ def gen(rng, tier):
             else:
                 ops.append(["call", rng.randrange(2), "now", True])
         cases.append({"ops": ops, "chunks": rng.randrange(1 << 30)})
+    # protocol switching (oracle only): calls outstanding when a ProtocolSwitchCommand succeeds, then the loss
+    for _ in range(150 if tier == "quick" else 3000):
+        ops = []
+        for _ in range(rng.randrange(1, 5)):
+            ops.append(["call", rng.randrange(2), rng.choice(["later", "later", "now", "declared"]), rng.random() < 0.3])
+        for _ in range(rng.randrange(0, 3)):
+            ops.append(["deliver", rng.randrange(2), rng.choice([1, 2])])
+        sw = rng.randrange(2)
+        ops.append(["call", sw, "switch", False])
+        tail = [["deliver", sw, rng.choice([1, 3, 9])], ["deliver", 1 - sw, rng.choice([1, 3, 9])],
+                ["call", rng.randrange(2), rng.choice(["now", "later"]), rng.random() < 0.3], ["fire", 0, "ok"],
+                ["deliver", rng.randrange(2), 2], ["call", 1 - sw, "switch", False]]
+        rng.shuffle(tail)
+        ops += tail[:rng.randrange(2, len(tail) + 1)]
+        ops.append(["disc", rng.randrange(2), rng.choice([0, 500])])
+        ops.append(["call", rng.randrange(2), "now", rng.random() < 0.5])
+        ops.append(["call", rng.randrange(2), "now", False])
+        cases.append({"ops": ops, "chunks": rng.randrange(1 << 30)})
+    # one peer allocates more than 2**16 tags while an early call is still unanswered (oracle only, ONE long case in quick)
+    cases.append({"kind": "wrap", "n": 65538, "slow": [0, 65537], "ops": []})
+    if tier != "quick":
+        cases.append({"kind": "wrap", "n": 65800, "slow": [3, 200, 65539, 65700], "ops": []})
+        cases.append({"kind": "wrap", "n": 131100, "slow": [1, 65537, 131073], "ops": []})
     return cases
 
 
@@ -392,6 +521,9 @@ def corpus():
         {"ops": [["call", 0, "now", False], ["call", 0, "later", False], ["call", 1, "undeclared", False], ["deliver", 0, 1], ["deliver", 1, 1],
                  ["call", 1, "now", False]], "chunks": 2},
         {"ops": [["call", 0, "now", False], ["disc", 0, 999], ["call", 0, "now", False], ["call", 1, "unknown", False]], "chunks": 3},
+        # a call outstanding when the connection is handed to another protocol, then the loss (seeded C31-D)
+        {"ops": [["call", 0, "later", False], ["deliver", 0, 1], ["call", 0, "switch", False], ["deliver", 0, 1], ["deliver", 1, 1],
+                 ["call", 0, "now", False], ["disc", 0, 0], ["call", 0, "now", False], ["call", 1, "now", True]], "chunks": 6},
         # re-entrant calls: from a callback at answer time, from an errback at error time and at connection-loss time
         {"ops": [["call", 0, "now", True], ["call", 0, "declared", True], ["deliver", 0, 2], ["deliver", 1, 2], ["call", 0, "later", True],
                  ["call", 0, "now", False], ["disc", 0, 0], ["call", 0, "now", True]], "chunks": 4},
@@ -402,6 +534,9 @@ def corpus():
 
 
 def to_coq(case):
+    if case.get("kind") == "wrap" or any(o[0] == "call" and o[2] == "switch" for o in case["ops"]):
+        return None         # not modelled: tags are unbounded naturals in the model; protocol switching is out of its scope
+
     def op(o):
         if o[0] == "call":
             return f"OCall {'true' if o[1] else 'false'} K{o[2]} {'true' if (len(o) > 3 and o[3]) else 'false'}"
@@ -414,6 +549,8 @@ def to_coq(case):
 
 
 def shrink(case):
+    if case.get("kind") == "wrap":
+        return
     ops = case["ops"]
     for i in range(len(ops)):
         yield {**case, "ops": ops[:i] + ops[i + 1:]}
@@ -425,14 +562,19 @@ SPEC = Spec(
     coq_header="From C31 Require Import Model Run.",
     coq_fn="run_show",
     to_coq=to_coq,
-    nontrivial=lambda c, o: "C" in o and ("I" in o or "X" in o),
-    histogram=lambda c, o: ("lost" if " |up=F" in o else "up") + (":fatal" if "UnknownRemoteError" in o else ""),
+    nontrivial=lambda c, o: c.get("kind") == "wrap" or ("C" in o and ("I" in o or "X" in o)),
+    histogram=lambda c, o: "long-history" if c.get("kind") == "wrap" else
+    ("switch:" if "I0:sw" in o or "I1:sw" in o else "") + ("lost" if " |up=F" in o else "up") + (":fatal" if "UnknownRemoteError" in o else ""),
+    case_timeout=120.0,
     rule="every history of length <= 2, 30% of length 3 (quick) / <= 3, 40% of length 4, 1% of length 5 (thorough) over a "
          "14-letter alphabet (calls of each responder kind incl. subclass-of-declared and fatal declared errors, with and "
          "without a re-entrant follow-up call from their callback/errback, from either peer; deliver one box in either direction; "
          "fire the oldest pending responder with success / subclass error / undeclared error; loss in the middle of the next box), plus "
          "random histories of 5-50 ops (deliveries of 1-7 boxes, responders fired out of order, loss at 0/0.1/50/99.9% of "
-         "the next box); each box's bytes arrive in 1-3 chunks cut at seeded offsets; non-trivial = some call fired and a "
+         "the next box); each box's bytes arrive in 1-3 chunks cut at seeded offsets; 150 histories with a ProtocolSwitchCommand "
+         "(calls outstanding at switch time, calls after the switch, then the loss; oracle only) and ONE history in which a peer makes "
+         "65 538 calls while its first call is still unanswered (tag space of 2**16 exhausted; oracle only; thorough: three, up to "
+         "131 100 calls); non-trivial = some call fired and a "
          "responder ran or the connection was lost; distinct by (case, observation)",
     trusted=["hand-written model coq/C31/Model.v (tied by this correspondence run only)",
              "box framing (C30) is not modelled: a channel is a FIFO of whole boxes; a connection lost inside a box = the box is never delivered",
